@@ -839,7 +839,7 @@ func ParseICMP(flowMessage *ProtoProducerMessage, data []byte, pc ParseConfig) (
 
 	flowMessage.AddLayer("ICMP")
 
-	if pc.Calls == 0 { // first time calling
+	if pc.BaseLayer() { // first time calling
 		flowMessage.IcmpType = uint32(data[0])
 		flowMessage.IcmpCode = uint32(data[1])
 	}
@@ -856,7 +856,7 @@ func ParseICMPv6(flowMessage *ProtoProducerMessage, data []byte, pc ParseConfig)
 
 	flowMessage.AddLayer("ICMPv6")
 
-	if pc.Calls == 0 { // first time calling
+	if pc.BaseLayer() { // first time calling
 		flowMessage.IcmpType = uint32(data[0])
 		flowMessage.IcmpCode = uint32(data[1])
 	}
